@@ -12,6 +12,12 @@ CMP = {ast.Lt: ast.LtE, ast.LtE: ast.Lt, ast.Gt: ast.GtE, ast.GtE: ast.Gt, ast.E
 BIN = {ast.Add: ast.Sub, ast.Sub: ast.Add, ast.Mult: ast.Div, ast.Div: ast.Mult, ast.BitOr: ast.BitAnd, ast.BitAnd: ast.BitOr}
 
 
+SEMANTIC_OPS = False  # the second sweep: role swaps in the algebra layer
+NAME_SWAP = {"self": "other", "other": "self", "assumptions": "guarantees", "guarantees": "assumptions", "inputvars": "outputvars", "outputvars": "inputvars", "input_vars": "output_vars", "output_vars": "input_vars", "g1": "g2", "g2": "g1", "source_var": "target_var", "target_var": "source_var"}
+ATTR_SWAP = {"a": "g", "g": "a", "inputvars": "outputvars", "outputvars": "inputvars"}
+CALL_FAMILIES = [("list_union", "list_intersection", "list_diff"), ("elim_vars_by_refining", "elim_vars_by_relaxing"), ("can_compose_with", "can_quotient_by", "shares_io_with")]
+
+
 def functions(tree):
     out = []
 
@@ -77,6 +83,18 @@ def sites(fn):
             res.append(("comp-if-drop", i, ln))
         elif isinstance(n, ast.Subscript) and isinstance(n.slice, ast.Slice):
             res.append(("slice-drop", i, ln))
+        if SEMANTIC_OPS:
+            if isinstance(n, ast.Name) and isinstance(n.ctx, ast.Load) and n.id in NAME_SWAP:
+                res.append(("name-swap", i, ln))
+            if isinstance(n, ast.Attribute) and isinstance(n.ctx, ast.Load) and n.attr in ATTR_SWAP:
+                res.append(("attr-swap", i, ln))
+            if isinstance(n, ast.Call):
+                fnm = n.func.attr if isinstance(n.func, ast.Attribute) else n.func.id if isinstance(n.func, ast.Name) else None
+                for k_, fam in enumerate(CALL_FAMILIES):
+                    if fnm in fam:
+                        for alt in fam:
+                            if alt != fnm:
+                                res.append(("call-swap:%s" % alt, i, ln))
         if isinstance(n, (ast.FunctionDef, ast.For, ast.While, ast.If, ast.With, ast.Try, ast.ExceptHandler)):
             for fld in ("body", "orelse", "finalbody"):
                 body = getattr(n, fld, None)
@@ -140,6 +158,16 @@ def apply(fn, op, idx):
         _replace(fn, n, n.value)
     elif op == "drop-else":
         n.orelse = []
+    elif op == "name-swap":
+        n.id = NAME_SWAP[n.id]
+    elif op == "attr-swap":
+        n.attr = ATTR_SWAP[n.attr]
+    elif op.startswith("call-swap:"):
+        alt = op.split(":", 1)[1]
+        if isinstance(n.func, ast.Attribute):
+            n.func.attr = alt
+        else:
+            n.func.id = alt
     elif op.startswith("del-stmt:"):
         _, fld, j = op.split(":")
         body = getattr(n, fld)
